@@ -672,6 +672,8 @@ func (c *Case) compareStream(sp *streamPair) {
 		}
 		got := msgs[ri]
 		switch {
+		case ri == 0 && !sp.m.DedupAttach && got.Stage == StExecuting && e.Stage == StQueued && got.Name == e.Name:
+			c.diverge("new-task-handed-to-ineligible-worker", []string{"C05", "C01"}, "stream %d: a new task was handed to a worker at once, although no undrained worker of its queue was waiting for work (the model expected it to be queued)", sp.m.ID)
 		case ri == 0 && sp.m.DedupAttach && (got.Stage != e.Stage || got.Name != e.Name):
 			c.diverge("duplicate-request-not-attached-to-in-flight-task", []string{"C03"}, "stream %d: request for the digest of a live cacheable task should attach to it (expected first message %+v), got %+v", sp.m.ID, e, brief(got))
 		case got.Done && !e.Done:
@@ -1660,6 +1662,8 @@ func (c *Case) checkHook(final bool) {
 
 func hookRule(p string) string {
 	switch {
+	case strings.Contains(p, "drained or terminating"):
+		return "drained-worker-parked"
 	case strings.Contains(p, "heap order"):
 		return "heap-order"
 	case strings.Contains(p, "deduplication"):
@@ -1692,7 +1696,7 @@ func hookOwners(p string) []string {
 		return []string{"C03"}
 	case "cleanup", "invocation-leak", "idle-workers-count":
 		return []string{"C06"}
-	case "queue-registry":
+	case "queue-registry", "drained-worker-parked":
 		return []string{"C05"}
 	}
 	return []string{"C01"}
